@@ -92,7 +92,7 @@ func vc07Source(src int, s1, s2 int64) (*Subtitles, error) {
 func VH_C07_Convert() {
 	vmode("int")
 	src := choose(6)
-	dst := choose(4) // srt, vtt, ssa, stl  (ttml destination: VH_C07_ConvertToTTML)
+	dst := choose(5) // srt, vtt, ssa, stl, ttml
 	s1, s2 := []int64{3, 7}[choose(2)], []int64{0, 9}[choose(2)] // concrete boundaries: the timestamp arithmetic itself is C16/C01/C02/C04/C05
 	s, err := vc07Source(src, s1, s2)
 	vassert(err == nil && len(s.Items) == 2, "C07 source document readable")
@@ -117,6 +117,8 @@ func VH_C07_Convert() {
 		werr = s.WriteToSSA(&buf)
 	case 3:
 		werr = s.WriteToSTL(&buf)
+	case 4:
+		werr = vc07WriteTTML(s, &buf)
 	}
 	vassert(werr == nil, "C07 conversion: the destination writer succeeds")
 	if werr != nil {
@@ -133,6 +135,8 @@ func VH_C07_Convert() {
 		r, rerr = ReadFromSSA(bytes.NewReader(buf.Bytes()))
 	case 3:
 		r, rerr = ReadFromSTL(bytes.NewReader(buf.Bytes()), STLOptions{})
+	case 4:
+		r, rerr = ReadFromTTML(bytes.NewReader(buf.Bytes()))
 	}
 	vassert(rerr == nil, "C07 conversion: the destination reads back")
 	if rerr != nil {
@@ -146,6 +150,258 @@ func VH_C07_Convert() {
 		vassert(int64(r.Items[c].StartAt) == want[c][0] && int64(r.Items[c].EndAt) == want[c][1], "C07 conversion: same boundaries, same order")
 		if dst != 3 || (s.Metadata != nil && s.Metadata.STLDisplayStandardCode == "0") {
 			vassert(vtrimSpaces(vtextOf(r.Items[c])) == []string{"Hello", "World"}[c], "C07 conversion: same text")
+		}
+	}
+	vreach("end")
+}
+
+// vc07WriteTTML writes the list as TTML.  Natively the document goes through encoding/xml into buf and is read back
+// from there; under the engine the XML layer is the capture/provider pair of C03 (validated against encoding/xml by
+// `ssasmt validate`), so the captured output value is turned into the decoded input value the reader will be handed.
+func vc07WriteTTML(s *Subtitles, buf *bytes.Buffer) error {
+	vxmlCaptured = nil
+	vttmlDoc, vttmlItems, vttmlItemsPos = nil, nil, 0
+	if err := s.WriteToTTML(buf); err != nil {
+		return err
+	}
+	if len(vxmlCaptured) != 1 {
+		return nil // native run: buf holds the document
+	}
+	out := vxmlCaptured[0].(TTMLOut)
+	doc := &TTMLIn{Lang: out.Lang}
+	if out.Metadata != nil {
+		doc.Metadata = TTMLInMetadata{Copyright: out.Metadata.Copyright, Title: out.Metadata.Title}
+	}
+	for _, st := range out.Styles {
+		doc.Styles = append(doc.Styles, TTMLInStyle{TTMLInHeader: TTMLInHeader{ID: st.ID, Style: st.Style, TTMLInStyleAttributes: TTMLInStyleAttributes(st.TTMLOutStyleAttributes)}})
+	}
+	for _, rg := range out.Regions {
+		doc.Regions = append(doc.Regions, TTMLInRegion{TTMLInHeader: TTMLInHeader{ID: rg.ID, Style: rg.Style, TTMLInStyleAttributes: TTMLInStyleAttributes(rg.TTMLOutStyleAttributes)}})
+	}
+	ms := int64(time.Millisecond)
+	for _, p := range out.Subtitles {
+		doc.Subtitles = append(doc.Subtitles, TTMLInSubtitle{Begin: vdur(int64(p.Begin) / ms * ms), End: vdur(int64(p.End) / ms * ms), ID: p.ID, Region: p.Region, Style: p.Style,
+			TTMLInStyleAttributes: TTMLInStyleAttributes(p.TTMLOutStyleAttributes)})
+		var its TTMLInItems
+		for _, i := range p.Items {
+			its = append(its, TTMLInItem{Style: i.Style, Text: i.Text, TTMLInStyleAttributes: TTMLInStyleAttributes(i.TTMLOutStyleAttributes), XMLName: i.XMLName})
+		}
+		vttmlItems = append(vttmlItems, its)
+	}
+	vttmlDoc = doc
+	return nil
+}
+
+// ---- operation pipelines: reference model of the documented operations over (start, end, text) triples ----
+
+type vc07Cue struct {
+	st, en int64
+	text   string
+}
+
+func vc07RefOrder(l []vc07Cue) []vc07Cue { // stable
+	var o []vc07Cue
+	for _, c := range l {
+		k := len(o)
+		for k > 0 && o[k-1].st > c.st {
+			k--
+		}
+		o = append(o, vc07Cue{})
+		copy(o[k+1:], o[k:])
+		o[k] = c
+	}
+	return o
+}
+
+func vc07RefAdd(l []vc07Cue, d int64) []vc07Cue {
+	var o []vc07Cue
+	for _, c := range l {
+		if c.en+d <= 0 {
+			continue
+		}
+		if c.st+d < 0 {
+			o = append(o, vc07Cue{0, c.en + d, c.text})
+		} else {
+			o = append(o, vc07Cue{c.st + d, c.en + d, c.text})
+		}
+	}
+	return o
+}
+
+// every cue is cut at the multiples of f it strictly contains (at most K of them lie below the last end), then stable order
+func vc07RefFragment(l []vc07Cue, f int64, K int) []vc07Cue {
+	var o []vc07Cue
+	for _, c := range l {
+		m := int64(0)
+		for k := 1; k <= K; k++ {
+			m += f
+			if c.st < m && m < c.en {
+				o = append(o, vc07Cue{c.st, m, c.text})
+				c.st = m
+			}
+		}
+		o = append(o, c)
+	}
+	return vc07RefOrder(o)
+}
+
+// order, then every cue absorbs the later same-text cues it touches or overlaps
+func vc07RefUnfragment(l []vc07Cue) []vc07Cue {
+	if len(l) <= 1 {
+		return l
+	}
+	o := vc07RefOrder(l)
+	for i := 0; i < len(o); i++ {
+		for j := i + 1; j < len(o); j++ {
+			if o[i].text == o[j].text && o[i].en >= o[j].st {
+				if o[j].en > o[i].en {
+					o[i].en = o[j].en
+				}
+				o = append(o[:j], o[j+1:]...)
+				j--
+			}
+		}
+	}
+	return o
+}
+
+// C07 H3: source read by the real reader of any format, boundaries then arbitrary (file order is not start order: no
+// reader sorts), any sequence of the documented operations with arbitrary parameters, result compared with the
+// operations' specifications composed; the resulting value (whatever sharing, nil parts or removed styles the
+// operations left) then goes through every destination writer and reader with representative boundaries.
+func VH_C07_Pipeline() {
+	vmode("int")
+	sec := int64(time.Second)
+	nops := choose(3) // 0..2 operations
+	var ops []int
+	opsum := 0
+	for o := 0; o < nops; o++ {
+		ops = append(ops, choose(7))
+		opsum += ops[o] * (o + 1)
+	}
+	// every (source, destination) pair for sequences of 0..1 operations; for 2 operations every pair in the thorough
+	// tier and one pair per sequence, rotating, in the quick tier
+	src, dst := opsum%6, (opsum/2+nops)%5
+	if nops < 2 || vbound("pairs", 1, 30) == 30 {
+		src, dst = choose(6), choose(5)
+	}
+	s, err := vc07Source(src, 3, 0)
+	if err != nil || len(s.Items) != 2 {
+		vassert(false, "C07 pipeline: source document readable")
+		return
+	}
+	var ref []vc07Cue
+	for i, it := range s.Items {
+		st, en := nondetInt64(0, 60*sec), nondetInt64(0, 60*sec)
+		vassume(st < en)
+		it.StartAt, it.EndAt = time.Duration(st), time.Duration(en)
+		ref = append(ref, vc07Cue{st, en, []string{"Hello", "World"}[i]})
+	}
+	maxEnd := 60 * sec
+	vreach("source")
+	for o := 0; o < nops; o++ {
+		switch ops[o] {
+		case 0: // sync
+			d := nondetInt64(-30*sec, 30*sec)
+			s.Add(time.Duration(d))
+			ref = vc07RefAdd(ref, d)
+			maxEnd += 30 * sec
+		case 1: // fragment
+			f := nondetInt64(20*sec, 400*sec)
+			for _, c := range ref {
+				vassume(c.en < 3*f)
+			}
+			s.Fragment(time.Duration(f))
+			ref = vc07RefFragment(ref, f, 2)
+		case 2:
+			s.Unfragment()
+			ref = vc07RefUnfragment(ref)
+		case 3: // merge a one-cue document read from SRT, same text as the first cue
+			m, merr := ReadFromSRT(bytes.NewReader([]byte("1\n00:00:01,000 --> 00:00:02,000\nHello\n")))
+			if merr != nil || len(m.Items) != 1 {
+				vassert(false, "C07 pipeline: merged document readable")
+				return
+			}
+			st, en := nondetInt64(0, 60*sec), nondetInt64(0, 60*sec)
+			vassume(st < en)
+			m.Items[0].StartAt, m.Items[0].EndAt = time.Duration(st), time.Duration(en)
+			s.Merge(m)
+			ref = vc07RefOrder(append(ref, vc07Cue{st, en, "Hello"}))
+		case 4:
+			s.Optimize()
+		case 5: // linear correction t -> 2t + 3s (exact in float64 at these magnitudes)
+			s.ApplyLinearCorrection(0, time.Duration(3*sec), time.Duration(10*sec), time.Duration(23*sec))
+			for i := range ref {
+				ref[i].st, ref[i].en = 2*ref[i].st+3*sec, 2*ref[i].en+3*sec
+			}
+			maxEnd = 2*maxEnd + 3*sec
+		case 6:
+			s.Order()
+			ref = vc07RefOrder(ref)
+		}
+	}
+	_ = maxEnd
+	vassert(len(s.Items) == len(ref), "C07 pipeline: the cue count the composed specifications give")
+	if len(s.Items) != len(ref) {
+		return
+	}
+	for i, it := range s.Items {
+		vassert(int64(it.StartAt) == ref[i].st && int64(it.EndAt) == ref[i].en, "C07 pipeline: boundaries and order the composed specifications give")
+		vassert(vtrimSpaces(vtextOf(it)) == ref[i].text, "C07 pipeline: text the composed specifications give")
+	}
+	vreach("ops")
+	if len(s.Items) == 0 {
+		var buf bytes.Buffer
+		vassert(s.WriteToSRT(&buf) == ErrNoSubtitlesToWrite, "C07 pipeline: nothing left to write")
+		return
+	}
+	// representative boundaries for the conversion stage (arbitrary boundaries through each writer/reader pair: C01-C05)
+	for i, it := range s.Items {
+		it.StartAt, it.EndAt = time.Duration(int64(10*i+3)*sec), time.Duration(int64(10*i+8)*sec)
+	}
+	var buf bytes.Buffer
+	var werr, rerr error
+	var r *Subtitles
+	switch dst {
+	case 0:
+		werr = s.WriteToSRT(&buf)
+	case 1:
+		werr = s.WriteToWebVTT(&buf)
+	case 2:
+		werr = s.WriteToSSA(&buf)
+	case 3:
+		werr = s.WriteToSTL(&buf)
+	case 4:
+		werr = vc07WriteTTML(s, &buf)
+	}
+	vassert(werr == nil, "C07 pipeline: the destination writer succeeds")
+	if werr != nil {
+		return
+	}
+	switch dst {
+	case 0:
+		r, rerr = ReadFromSRT(bytes.NewReader(buf.Bytes()))
+	case 1:
+		r, rerr = ReadFromWebVTT(bytes.NewReader(buf.Bytes()))
+	case 2:
+		r, rerr = ReadFromSSA(bytes.NewReader(buf.Bytes()))
+	case 3:
+		r, rerr = ReadFromSTL(bytes.NewReader(buf.Bytes()), STLOptions{})
+	case 4:
+		r, rerr = ReadFromTTML(bytes.NewReader(buf.Bytes()))
+	}
+	vassert(rerr == nil, "C07 pipeline: the destination reads back")
+	if rerr != nil {
+		return
+	}
+	vassert(len(r.Items) == len(ref), "C07 pipeline: same number of cues after conversion")
+	if len(r.Items) != len(ref) {
+		return
+	}
+	for i, it := range r.Items {
+		vassert(int64(it.StartAt) == int64(10*i+3)*sec && int64(it.EndAt) == int64(10*i+8)*sec, "C07 pipeline: same boundaries, same order after conversion")
+		if dst != 3 || (s.Metadata != nil && s.Metadata.STLDisplayStandardCode == "0") {
+			vassert(vtrimSpaces(vtextOf(it)) == ref[i].text, "C07 pipeline: same text after conversion")
 		}
 	}
 	vreach("end")
